@@ -1,7 +1,11 @@
 (* Dispatch table of the extracted model executable: one command per modelled function. *)
 From FV Require Import Base.Prelude Model.ScriptBlocks Model.MathFuncs gen.MathTable.
+From FV Require Model.Inject gen.Templates.
 
 Definition dispatch (cmd : string) (arg : sexp) : sexp :=
   if String.eqb cmd "c15.gen" then ScriptBlocks.run_gen arg
   else if String.eqb cmd "c12.audit" then MathFuncs.audit math_env documented
+  else if String.eqb cmd "c14.package" then Inject.run_package Templates.inject_cfg arg
+  else if String.eqb cmd "c14.dedup" then Inject.run_dedup Templates.inject_cfg arg
+  else if String.eqb cmd "c14.slots" then Inject.run_slots Templates.inject_cfg arg
   else s_tag "unknown-command" [SAtom cmd].
